@@ -1,6 +1,8 @@
 package fzf
 
 import (
+	"github.com/junegunn/fzf/src/algo"
+	"github.com/junegunn/fzf/src/util"
 	"github.com/junegunn/fzf/src/zzv"
 )
 
@@ -310,5 +312,50 @@ func zzH_C10_transform() {
 	if first > 0 {
 		zzv.Reach("opt:nonempty")
 		zzv.Assert("offset-of-first-field", out[0].prefixLength == tokens[first-1].prefixLength)
+	}
+}
+
+func init() {
+	zzHarnesses["zzH_C10_nth"] = zzH_C10_nth
+}
+
+// H10.nth: with --nth a term can only match inside the selected fields, positions refer to the
+// full line, and a later change of the field expression (change-nth: minor revision bump) is
+// honoured for items that were already searched.
+func zzH_C10_nth() {
+	algo.Init("default")
+	sortCriteria = []criterion{byScore, byLength}
+	nf := 3
+	// line: three comma-terminated fields of one symbolic character each: "x,y,z"
+	fields := make([]byte, nf)
+	for i := range fields {
+		fields[i] = "ab"[zzv.Below(2)]
+	}
+	line := []byte{fields[0], ',', fields[1], ',', fields[2]}
+	delim := ","
+	mk := func(nth int, rev revision) *Pattern {
+		return BuildPattern(NewChunkCache(), map[string]*Pattern{}, true, algo.FuzzyMatchV2, true, CaseSmart, true, true,
+			true, false, []Range{newRange(nth, nth)}, Delimiter{str: &delim}, rev, []rune("a"), nil)
+	}
+	item := &Item{text: util.ToChars(line)}
+	n1 := zzv.Choose(1, nf)
+	n2 := zzv.Choose(1, nf)
+	rev1 := revision{major: 1, minor: 0}
+	rev2 := rev1
+	if zzv.Bool() {
+		rev2.bumpMinor() // change-nth / transform-nth
+	} else {
+		rev2.bumpMajor() // reload
+	}
+	r1, offs1, _ := mk(n1, rev1).MatchItem(item, true, nil)
+	zzv.Reach("called")
+	zzv.Assert("matches-only-in-field-1st", (r1 != nil) == (fields[n1-1] == 'a'))
+	if r1 != nil {
+		zzv.Assert("offset-in-full-line-1st", len(offs1) == 1 && int(offs1[0][0]) == 2*(n1-1) && int(offs1[0][1]) == 2*(n1-1)+1)
+	}
+	r2, offs2, _ := mk(n2, rev2).MatchItem(item, true, nil)
+	zzv.Assert("matches-only-in-field-after-change", (r2 != nil) == (fields[n2-1] == 'a'))
+	if r2 != nil {
+		zzv.Assert("offset-in-full-line-after-change", len(offs2) == 1 && int(offs2[0][0]) == 2*(n2-1) && int(offs2[0][1]) == 2*(n2-1)+1)
 	}
 }
